@@ -11,6 +11,7 @@ for cfg in std alloc noalloc; do
   [ "$cfg" != "noalloc" ] && feat="--features $cfg"
   ( cd harness && cargo build --offline --quiet $feat --target-dir target/$cfg ) &
 done
+( cd harness && cargo build --offline --quiet --features std --config profile.dev.opt-level=0 --target-dir target/std0 ) &
 wait
 cargo build --offline --quiet --manifest-path /repo/Cargo.toml --target-dir work/cli-target --bin aisparser
 echo setup-ok
